@@ -44,6 +44,13 @@
 #include "upipe-modules/upipe_blank_source.h"
 #include "upipe-modules/upipe_dtsdi.h"
 #include "upipe-modules/upipe_sync.h"
+#include "upipe-ts/upipe_ts_encaps.h"
+#include "upipe-ts/upipe_ts_pes_encaps.h"
+#include "upipe-ts/upipe_ts_split.h"
+#include "upipe-filters/upipe_filter_blend.h"
+#include "upipe-filters/upipe_audio_bar.h"
+#include "upipe-filters/upipe_audio_graph.h"
+#include "upipe-filters/upipe_audio_max.h"
 
 enum { LK_BLOCK, LK_PIC, LK_SOUND, LK_VOID, LK_N };
 static const char *lk_name[] = { "block", "pic", "sound", "void" };
@@ -88,6 +95,13 @@ static const struct lcdesc lc_cat[] = {
     { "dtsdi", upipe_dtsdi_mgr_alloc, 0, 0, 0 },
     { "sync", upipe_sync_mgr_alloc, 0, 1, 0xf },     /* no clock, no mercy: dereferences a NULL uclock on its first buffer */
     { "dejitter", upipe_dejitter_mgr_alloc, 0, 1, 0 },
+    { "ts_encaps", upipe_ts_encaps_mgr_alloc, 0, 0, 0 },
+    { "ts_pes_encaps", upipe_ts_pese_mgr_alloc, 0, 0, 0 },
+    { "ts_split", upipe_ts_split_mgr_alloc, 0, 2, 0 },
+    { "filter_blend", upipe_filter_blend_mgr_alloc, 0, 0, 0 },
+    { "audio_bar", upipe_audiobar_mgr_alloc, 1, 0, 0 },
+    { "audio_graph", upipe_agraph_mgr_alloc, 1, 0, 0 },
+    { "audio_max", upipe_amax_mgr_alloc, 0, 0, 0 },
 };
 #define LC_NCAT ((int)(sizeof(lc_cat) / sizeof(lc_cat[0])))
 static int lc_only = -1;
@@ -100,7 +114,12 @@ static struct uref *lc_flow_def(int kind, uint64_t seed)
 {
     struct uref *fd = NULL;
     switch (kind) {
-        case LK_BLOCK: fd = uref_block_flow_alloc_def(E.uref_mgr, vh_chance(R, 1, 3) ? "h264." : ""); break;
+        case LK_BLOCK: {
+            static const char *sfx[] = { "", "", "h264.", "mpegts.", "mpegtsaligned.", "mpegtspes." };
+            fd = uref_block_flow_alloc_def(E.uref_mgr, sfx[vh_below(R, 6)]);
+            if (fd && vh_chance(R, 1, 2)) { uref_ts_flow_set_pid(fd, 68 + vh_below(R, 4)); uref_ts_flow_set_pes_id(fd, 0xe0); }
+            break;
+        }
         case LK_PIC:
             fd = uref_pic_flow_alloc_def(E.uref_mgr, 1);
             uref_pic_flow_add_plane(fd, 1, 1, 1, "y8");
